@@ -38,7 +38,7 @@ ASSUMPTIONS = [
 def floors(tier):
     return {"bf=0": 300, "bf=1": 300, "mode=GET": 200, "mode=SET": 100, "mode=POLL": 100,
             "count=0": 20, "count>=100": 5, "nested": 2, "variant": 20, "none-group": 20,
-            "neg": 50, "scaled": 100}
+            "neg": 50, "scaled": 100, "after-failed-operation": 500}
 
 
 def eligible(t):
@@ -61,13 +61,46 @@ def plan(tier, seed):
     return [{"targets": part} for part in shards if part]
 
 
+def group_spans(nodes):
+    """(start, end) byte spans of the repeating groups of an instance."""
+    spans, _ = G.leaf_spans(nodes)
+    out = []
+    for name, s, e in spans:
+        if name[-3:-2] == "_" and name[-2:].isdigit():
+            out.append((s, e))
+    return out
+
+
+@st.composite
+def preludes(draw, t):
+    """A failing operation on the same message type: its payload cut inside a
+    repeating group, or a keyword of the wrong type for a group member."""
+    if draw(st.integers(0, 2)) != 0 or G.audit_fatal(t.defn):
+        return []
+    nodes = draw(layout.instances(t.defn, mode=t.mode, clsid=t.clsid, forced=catalog.forced_for(t) or {},
+                                  max_payload=600, big_counts=False, forced_counts={n: 2 for n in G.count_names(t.defn)}))
+    payload = G.encode(nodes)
+    gs = group_spans(nodes)
+    if gs and draw(st.booleans()):
+        s, e = gs[draw(st.integers(0, len(gs) - 1))]
+        cut = draw(st.integers(s, max(s, e - 1)))
+        return [["parse", codec.ubx_frame(t.clsid[0:1], t.clsid[1:2], payload[:cut]), t.mode]]
+    names = [n for n, _ in G.expect(nodes, 1)]
+    if names:
+        nm = names[draw(st.integers(0, len(names) - 1))]
+        kw = [[n, 1] for n in G.count_names(t.defn)] + [[nm, draw(st.sampled_from(["x", None, 10 ** 30, [1]]))]]
+        return [["build", t.clsid, t.mode, kw]]
+    return []
+
+
 def case_strategy(t, bf, tier):
     forced = catalog.forced_for(t)
     big = True
     inst = layout.instances(t.defn, mode=t.mode, clsid=t.clsid, forced=forced or {},
                             max_payload=65535 if tier == "thorough" else 16000, big_counts=big)
-    return inst.map(lambda nodes: {"kind": "layout", "mode": t.mode, "clsid": t.clsid,
-                                   "defname": t.defname, "bf": bf, "nodes": nodes})
+    return st.tuples(inst, preludes(t)).map(lambda np: {"kind": "layout", "mode": t.mode, "clsid": t.clsid,
+                                                         "defname": t.defname, "bf": bf, "nodes": np[0],
+                                                         "prelude": np[1]})
 
 
 def run_shard(spec, ctx, acc):
@@ -125,6 +158,18 @@ def check(case) -> core.Out:
         return out
     expected = G.expect(nodes, bf)
     frame = codec.ubx_frame(clsid[0:1], clsid[1:2], payload)
+    for pre in case.get("prelude") or []:
+        # operations that fail (a payload cut inside a group, a bad keyword for a
+        # group member) run first: their failure must not change what follows
+        try:
+            if pre[0] == "parse":
+                pyubx2.UBXReader.parse(bytes(pre[1]), msgmode=pre[2], parsebitfield=bf)
+            else:
+                pyubx2.UBXMessage(bytes(pre[1])[0:1], bytes(pre[1])[1:2], pre[2], **dict(pre[3]))
+        except Exception:  # noqa
+            pass
+    if case.get("prelude"):
+        out.classes = list(out.classes) + ["after-failed-operation"]
     try:
         msg = pyubx2.UBXReader.parse(frame, msgmode=mode, parsebitfield=bf)
     except Exception as err:  # noqa - any exception on a conforming payload is a violation
